@@ -284,8 +284,52 @@ def check_accumulators(model: RepoModel, rep, RID: str, rels: Iterable[str], adj
                 names = sorted({a.name for a in accs})
                 rep.holds(RID, f"{rel}::{f.qualname}::{len(names)} accumulator(s) run to completion", rel, f.node.lineno,
                           ", ".join(names)[:160])
+    n_it = check_oneshot_iterators(model, rep, RID, rels, classes)
+    rep.analysed[f"one-shot iterators bound outside a loop ({RID})"] = n_it
     rep.analysed[f"accumulators ({RID})"] = n_acc
     stale = sorted(set(adjudicated) - used_adj)
     if stale:
         rep.analysed[f"adjudicated sites no longer present ({RID})"] = stale
     return n_acc
+
+
+ONE_SHOT_CALLS = ("iter", "map", "filter", "zip", "reversed", "enumerate")
+
+
+def check_oneshot_iterators(model: RepoModel, rep, RID: str, rels: Iterable[str], classes: Optional[Dict[str, Set[str]]] = None) -> int:
+    """G3: a generator expression (or map/filter/zip/iter object) bound to a local *outside* a loop and consumed *inside* it is empty
+    from the second iteration on -- every later iteration silently sees no elements."""
+    n = 0
+    for rel in rels:
+        mod = model.module(rel)
+        for f in mod.all_funcs():
+            if classes and rel in classes and (f.cls is None or f.cls.name not in classes[rel]):
+                continue
+            gens: Dict[str, ast.stmt] = {}
+            for st in walk_no_nested(f.node):
+                if isinstance(st, ast.Assign) and len(st.targets) == 1 and isinstance(st.targets[0], ast.Name):
+                    v = st.value
+                    if isinstance(v, ast.GeneratorExp) or (isinstance(v, ast.Call) and isinstance(v.func, ast.Name) and v.func.id in ONE_SHOT_CALLS):
+                        gens[st.targets[0].id] = st
+            if not gens:
+                continue
+            enc = enclosing_map(f.node)
+            for name, d in gens.items():
+                n += 1
+                # loops that do not contain the binding
+                for L in walk_no_nested(f.node):
+                    if not isinstance(L, (ast.For, ast.While)) or any(x is d for x in ast.walk(L)):
+                        continue
+                    if L.lineno < d.lineno:
+                        continue
+                    uses = [x for x in ast.walk(L) if isinstance(x, ast.Name) and x.id == name and isinstance(x.ctx, ast.Load)]
+                    # the loop's own iterable is consumed once, that is fine
+                    uses = [u for u in uses if not (isinstance(L, ast.For) and any(y is u for y in ast.walk(L.iter)))]
+                    if uses:
+                        key = f"{rel}::{f.qualname}::`{name}`::one-shot iterator consumed inside a loop"
+                        rep.violation(RID, key, rel, uses[0].lineno,
+                                      f"{f.qualname} binds `{name}` to a one-shot iterator (`{norm(d.value)[:70]}`, line {d.lineno}) outside the loop at "
+                                      f"line {L.lineno} and consumes it inside: it is exhausted after the first iteration, so every later "
+                                      f"iteration sees no elements and contributes nothing")
+                        break
+    return n
